@@ -7,8 +7,13 @@ import (
 	"io"
 	"log"
 	"os"
+	"regexp"
 	"runtime"
 	"runtime/debug"
+	"sort"
+	"strings"
+	"sync"
+	"sync/atomic"
 	"testing"
 	"testing/synctest"
 	"time"
@@ -88,6 +93,16 @@ func TestWorker(t *testing.T) {
 	defer os.RemoveAll(scratch())
 	in := bufio.NewReaderSize(os.Stdin, 1<<20)
 	out := bufio.NewWriter(os.Stdout)
+	var outMu sync.Mutex
+	wdOutput = func(res *Result) {
+		outMu.Lock()
+		b, _ := json.Marshal(res)
+		out.WriteString("@@ ")
+		out.Write(b)
+		out.WriteString("\n")
+		out.Flush()
+	}
+	startWatchdog()
 	for {
 		line, err := in.ReadBytes('\n')
 		if len(line) > 1 {
@@ -113,6 +128,106 @@ func TestWorker(t *testing.T) {
 	}
 }
 
+// ---- wall-clock watchdog for livelocks ---------------------------------------
+//
+// Inside the bubble time is simulated and the scheduler waits for quiescence;
+// a goroutine of the system under test that spins without ever blocking keeps
+// the bubble from quiescing for ever. Between two gates bluge does
+// milliseconds of work, so a window that does not quiesce for 25 s of wall
+// clock is examined: if two goroutine dumps 3 s apart show the same goroutine
+// of package bluge/index running, that is a busy loop in the code under test
+// (verdict); anything else is reported as harness trouble. Either way the
+// process cannot continue and exits after answering.
+
+var (
+	curRun   atomic.Pointer[Run]
+	curJob   atomic.Pointer[Job]
+	wdOutput func(res *Result)
+)
+
+var goroutineHdr = regexp.MustCompile(`(?m)^goroutine (\d+) \[([a-z ]+)`)
+
+func spinningBlugeGoroutines(dump string) map[string]string {
+	rv := map[string]string{}
+	for _, blk := range strings.Split(dump, "\n\n") {
+		m := goroutineHdr.FindStringSubmatch(blk)
+		if m == nil || (m[2] != "running" && m[2] != "runnable") {
+			continue
+		}
+		for _, l := range strings.Split(blk, "\n") {
+			if strings.HasPrefix(l, "github.com/blugelabs/bluge/index.") {
+				if i := strings.LastIndex(l, "("); i > 0 {
+					l = l[:i]
+				}
+				rv[m[1]] = l
+				break
+			}
+		}
+	}
+	return rv
+}
+
+func startWatchdog() {
+	go func() {
+		last, since := heartbeat.Load(), time.Now()
+		for {
+			time.Sleep(time.Second)
+			if curRun.Load() == nil {
+				last, since = heartbeat.Load(), time.Now()
+				continue
+			}
+			if hb := heartbeat.Load(); hb != last {
+				last, since = hb, time.Now()
+				continue
+			}
+			if time.Since(since) < 25*time.Second {
+				continue
+			}
+			buf := make([]byte, 4<<20)
+			d1 := string(buf[:runtime.Stack(buf, true)])
+			time.Sleep(3 * time.Second)
+			if heartbeat.Load() != last {
+				last, since = heartbeat.Load(), time.Now()
+				continue
+			}
+			d2 := string(buf[:runtime.Stack(buf, true)])
+			s1, s2 := spinningBlugeGoroutines(d1), spinningBlugeGoroutines(d2)
+			_ = preWait.Load() // acquire: the scheduler's writes before it started waiting are visible
+			r, job := curRun.Load(), curJob.Load()
+			res := &Result{ID: job.ID, Check: job.Check, Seed: job.Seed, Fatal: true}
+			var spin []string
+			for g, f := range s1 {
+				if s2[g] == f {
+					spin = append(spin, fmt.Sprintf("goroutine %s in %s", g, f))
+				}
+			}
+			sort.Strings(spin)
+			if len(spin) > 0 {
+				res.Violation = &Violation{Oracle: "livelock", Msg: fmt.Sprintf("the system did not come to rest for %v of wall clock within one scheduler window (last released: %s); running without ever blocking: %s", time.Since(since).Round(time.Second), r.lastRel, strings.Join(spin, "; ")), Win: r.s.Win}
+			} else {
+				res.Harness = "watchdog: the bubble did not quiesce for 28 s and no goroutine of bluge/index is spinning:\n" + tailStr(d2, 6000)
+			}
+			res.Knobs = r.k
+			res.Tape = r.t.Used()
+			res.Ops = r.opsLog
+			res.Sched = r.sched
+			res.Stats = r.stats
+			wdOutput(res)
+			os.Exit(3)
+		}
+	}()
+}
+
+// runBubble executes one simulated run in a synctest bubble; the livelock
+// watchdog is armed only while a bubble is running (post-run work such as
+// crash-image probing happens outside and may take minutes).
+func runBubble(t *testing.T, r *Run) {
+	heartbeat.Add(1)
+	curRun.Store(r)
+	defer curRun.Store(nil)
+	synctest.Test(t, func(t *testing.T) { r.Execute() })
+}
+
 func runJob(t *testing.T, job *Job) (res *Result) {
 	res = &Result{ID: job.ID, Check: job.Check, Seed: job.Seed}
 	p := profileFor(job.Check, job.Tier, job.Variant)
@@ -136,6 +251,7 @@ func runJob(t *testing.T, job *Job) (res *Result) {
 	r := newRun(&p.Profile, tape, scratch())
 	r.forkPath = job.Fork
 	curT = t
+	curJob.Store(job)
 	func() {
 		defer func() {
 			if pv := recover(); pv != nil {
@@ -149,14 +265,12 @@ func runJob(t *testing.T, job *Job) (res *Result) {
 				}
 			}
 		}()
-		synctest.Test(t, func(t *testing.T) {
-			r.Execute()
-		})
+		runBubble(t, r)
 	}()
 	runtime.VerifSetSelectKey(0)
 	os.VerifHook = nil
 	res.Violation = r.viol
-	res.Observations = r.observations
+	res.Observations = append(res.Observations, r.observations...)
 	res.BudgetStop = r.budgetStop
 	res.Stats = r.stats
 	res.StateSigs = r.stats.StateSigs
